@@ -533,7 +533,9 @@ package keeper
 //@   ensures [C10.migrate.actor] err == nil ==> actsFor(msg.Creator, msg.Provider, old(has(Node, msg.Provider)), old(Node[msg.Provider]))
 //@   at RandomSP assert [C15.migrate.ignore] forall i int :: 0 <= i && i < len(oldOrder.Shards) && has(Shard, oldOrder.Shards[i]) ==> contains(ignore, Shard[oldOrder.Shards[i]].Sp)
 //@   at RandomSP assert [C15.migrate.count] count == 1
-//@   at AppendShard assert [C10.migrate.own] oldShard.Sp == msg.Provider && oldShard.Status == ShardCompleted && shard.From == msg.Provider && shard.Status == ShardMigrating
+//@   at MigrateShard assert [C10.migrate.own] oldShard.Sp == msg.Provider && oldShard.Status == ShardCompleted && from == msg.Provider && contains(order.Shards, oldShard.Id)
+//@   at SetOrder assert [C10.migrate.new] [C13.migrate.new] has(Shard, newShard.Id) && Shard[newShard.Id].From == msg.Provider && Shard[newShard.Id].Status == ShardMigrating
+//@       && Shard[newShard.Id].Sp != msg.Provider && Shard[newShard.Id].OrderId == order.Id && contains(order.Shards, newShard.Id)
 //@   loop L1 invariant -1 <= rangeindex
 //@   loop L1 invariant isProvider ==> contains(provider.TxAddresses, msg0.Creator)
 //@   loop L2 frameexcept resp
